@@ -1,5 +1,6 @@
 (* C15 -- lemmas about Model/Paging.v *)
 From Oras Require Import Base.Prelude Generated.GC15 Model.Paging.
+From Coq Require Import Permutation Sorted.
 
 (* ---------- parseLink ---------- *)
 
@@ -13,4 +14,405 @@ Proof.
   - simpl length. replace (S (length t) - 1)%nat with (length t) by lia.
     now rewrite firstn_app_exact.
   - simpl. rewrite H. reflexivity.
+Qed.
+
+Lemma parse_link_absent : parse_link [] = LNone.
+Proof. reflexivity. Qed.
+
+Lemma parse_link_no_lt c h : c <> c_lt -> parse_link (c :: h) = LErrLt.
+Proof. intro H. unfold parse_link. apply N.eqb_neq in H. now rewrite H. Qed.
+
+Lemma parse_link_no_gt h : contains c_gt h = false -> parse_link (c_lt :: h) = LErrGt.
+Proof.
+  intro H. unfold parse_link. rewrite N.eqb_refl.
+  assert (E : index_of c_gt (c_lt :: h) = None).
+  { apply index_of_none. simpl. exact H. }
+  now rewrite E.
+Qed.
+
+(* ---------- queries ---------- *)
+
+Lemma str_eqb_neq x y : x <> y -> str_eqb x y = false.
+Proof.
+  intro H. destruct (str_eqb x y) eqn:E; [|reflexivity].
+  apply str_eqb_spec in E. contradiction.
+Qed.
+
+Lemma qget_qdel_same k q : qget k (qdel k q) = None.
+Proof.
+  induction q as [|[k' v] q IH]; simpl; [reflexivity|].
+  destruct (str_eqb k' k) eqn:E; [exact IH|]. simpl. now rewrite E.
+Qed.
+
+Lemma qget_qdel_other k k' q : k <> k' -> qget k (qdel k' q) = qget k q.
+Proof.
+  intro H. induction q as [|[k2 v] q IH]; simpl; [reflexivity|].
+  destruct (str_eqb k2 k') eqn:E.
+  - apply str_eqb_spec in E. subst k2. rewrite (str_eqb_neq k' k); auto.
+  - simpl. now rewrite IH.
+Qed.
+
+Lemma qget_qset_same k v q : qget k (qset k v q) = Some v.
+Proof. unfold qset. simpl. now rewrite str_eqb_refl. Qed.
+
+Lemma qget_qset_other k k' v q : k <> k' -> qget k (qset k' v q) = qget k q.
+Proof.
+  intro H. unfold qset. simpl. rewrite (str_eqb_neq k' k); auto.
+  now apply qget_qdel_other.
+Qed.
+
+Lemma qget_app k q1 q2 :
+  qget k (q1 ++ q2) = match qget k q1 with Some v => Some v | None => qget k q2 end.
+Proof.
+  induction q1 as [|[k' v] q1 IH]; simpl; [reflexivity|].
+  destruct (str_eqb k' k); [reflexivity|exact IH].
+Qed.
+
+Lemma k_n_neq_last : k_n <> k_last. Proof. discriminate. Qed.
+Lemma k_n_neq_at : k_n <> k_at. Proof. discriminate. Qed.
+Lemma k_last_neq_at : k_last <> k_at. Proof. discriminate. Qed.
+
+(* what the server reads out of the request the client builds *)
+Lemma mk_request_last c u last :
+  qget k_last (u_query (mk_request c u last)) =
+  if sends_last (c_kind c) && negb (is_empty last) then Some (VS last)
+  else qget k_last (u_query u).
+Proof.
+  unfold mk_request. simpl.
+  destruct (sends_last (c_kind c) && negb (is_empty last)).
+  - apply qget_qset_same.
+  - destruct (0 <? c_n c)%Z; [|reflexivity].
+    apply qget_qset_other. intro H. symmetry in H. now apply k_n_neq_last in H.
+Qed.
+
+Lemma mk_request_at c u last :
+  qget k_at (u_query (mk_request c u last)) = qget k_at (u_query u).
+Proof.
+  unfold mk_request. simpl.
+  assert (A : forall q, qget k_at (if (0 <? c_n c)%Z then qset k_n (VN (Z.to_N (c_n c))) q else q) = qget k_at q).
+  { intro q. destruct (0 <? c_n c)%Z; [|reflexivity]. apply qget_qset_other.
+    intro H. symmetry in H. now apply k_n_neq_at in H. }
+  destruct (sends_last (c_kind c) && negb (is_empty last)).
+  - rewrite qget_qset_other; [apply A|]. intro H. symmetry in H. now apply k_last_neq_at in H.
+  - apply A.
+Qed.
+
+Lemma mk_request_n c u last :
+  (0 < c_n c)%Z -> qget k_n (u_query (mk_request c u last)) = Some (VN (Z.to_N (c_n c))).
+Proof.
+  intro H. unfold mk_request. simpl. apply Z.ltb_lt in H. rewrite H.
+  destruct (sends_last (c_kind c) && negb (is_empty last)).
+  - rewrite qget_qset_other; [apply qget_qset_same|]. exact k_n_neq_last.
+  - apply qget_qset_same.
+Qed.
+
+Lemma mk_request_path c u last : u_path (mk_request c u last) = u_path u.
+Proof. reflexivity. Qed.
+
+(* ---------- the registry's cursor ---------- *)
+
+Lemma after_pos_suffix x L r : after_pos x L = Some r -> exists pre, L = pre ++ r.
+Proof.
+  revert r. induction L as [|it L IH]; simpl; intros r H; [discriminate|].
+  destruct (str_eqb (fst it) x).
+  - injection H as <-. now exists [it].
+  - destruct (IH r H) as [pre ->]. now exists (it :: pre).
+Qed.
+
+Lemma drop_until_suffix x L : exists pre, L = pre ++ drop_until x L.
+Proof.
+  induction L as [|it L [pre IH]]; simpl.
+  - now exists [].
+  - destruct (str_ltb x (fst it)).
+    + now exists [].
+    + exists (it :: pre). simpl. now f_equal.
+Qed.
+
+Lemma after_suffix x L : exists pre, L = pre ++ after x L.
+Proof.
+  unfold after. destruct x as [|c x]; [now exists []|].
+  destruct (after_pos (c :: x) L) as [r|] eqn:E.
+  - now apply after_pos_suffix in E.
+  - apply drop_until_suffix.
+Qed.
+
+Lemma after_pos_fresh x A it B :
+  fst it = x -> ~ In x (map fst A) -> after_pos x (A ++ it :: B) = Some B.
+Proof.
+  intros Hx. induction A as [|a A IH]; simpl; intro Hn.
+  - rewrite Hx. now rewrite str_eqb_refl.
+  - rewrite str_eqb_neq; [|intro E; apply Hn; now left].
+    apply IH. intro Hi. apply Hn. now right.
+Qed.
+
+Lemma last_name_snoc p it : last_name (p ++ [it]) = fst it.
+Proof. unfold last_name. now rewrite rev_app_distr. Qed.
+
+Lemma firstn_snoc {A} (m : nat) (l : list A) :
+  (1 <= m)%nat -> (m <= length l)%nat -> exists p x, firstn m l = p ++ [x].
+Proof.
+  intros H1 H2.
+  destruct (firstn m l) as [|y t] eqn:E using rev_ind.
+  - exfalso. assert (length (firstn m l) = m) by (apply firstn_length_le; lia).
+    rewrite E in H. simpl in H. lia.
+  - now exists t, y.
+Qed.
+
+Lemma after_nonempty x L :
+  x <> [] -> after x L = match after_pos x L with Some r => r | None => drop_until x L end.
+Proof. destruct x; [contradiction|reflexivity]. Qed.
+
+(* the cursor written into a link selects exactly the rest *)
+Lemma after_page L pre rest m :
+  L = pre ++ rest -> NoDup (map fst L) -> (forall it, In it L -> fst it <> []) ->
+  (1 <= m)%nat -> (m < length rest)%nat ->
+  after (last_name (firstn m rest)) L = skipn m rest.
+Proof.
+  intros HL Hnd Hne H1 H2.
+  destruct (firstn_snoc m rest H1 ltac:(lia)) as (p & it & Ep).
+  rewrite Ep, last_name_snoc.
+  assert (Hrest : rest = (p ++ [it]) ++ skipn m rest) by (rewrite <- Ep; symmetry; apply firstn_skipn).
+  assert (HL' : L = (pre ++ p) ++ it :: skipn m rest).
+  { rewrite HL. rewrite Hrest at 1. rewrite <- !app_assoc. reflexivity. }
+  assert (Hin : In it L) by (rewrite HL'; apply in_or_app; right; now left).
+  rewrite after_nonempty by (now apply Hne).
+  rewrite HL'. rewrite after_pos_fresh; auto.
+  rewrite HL' in Hnd. rewrite map_app in Hnd. simpl in Hnd.
+  apply NoDup_remove_2 in Hnd. intro Hi. apply Hnd. apply in_or_app. now left.
+Qed.
+
+(* ---------- filters ---------- *)
+
+Lemma filter_idem {A} (f : A -> bool) l : filter f (filter f l) = filter f l.
+Proof.
+  induction l as [|x l IH]; simpl; [reflexivity|].
+  destruct (f x) eqn:E; simpl; [rewrite E; now f_equal|exact IH].
+Qed.
+
+Lemma filter_referrers_idem l a : filter_referrers (filter_referrers l a) a = filter_referrers l a.
+Proof. unfold filter_referrers. destruct (is_empty a); [reflexivity|apply filter_idem]. Qed.
+
+Lemma filter_referrers_app l1 l2 a :
+  filter_referrers (l1 ++ l2) a = filter_referrers l1 a ++ filter_referrers l2 a.
+Proof. unfold filter_referrers. destruct (is_empty a); [reflexivity|apply filter_app]. Qed.
+
+(* ---------- the client loop against the registry ---------- *)
+
+(* the URL a registry's next link stands for: same path, cursor x, the registry's extra
+   parameters, then the other parameters of the request *)
+Definition link_target (d : decision) (rq : url) (x : str) : url :=
+  mkUrl (u_path rq) ((k_last, VS x) :: d_extra d ++ qdel k_last (u_query rq)).
+
+Lemma last_name_in (rest : list item) m :
+  (1 <= m)%nat -> (m <= length rest)%nat -> In (last_name (firstn m rest)) (map fst rest).
+Proof.
+  intros H1 H2. destruct (firstn_snoc m rest H1 H2) as (p & it & E).
+  rewrite E, last_name_snoc. apply in_map.
+  rewrite <- (firstn_skipn m rest). rewrite E. apply in_or_app. left. apply in_or_app. right. now left.
+Qed.
+
+Section Listing.
+  Variable L : list item.
+  Variable cap : nat.
+  Variable ds : nat -> decision.
+  Variable render : nat -> url -> url -> str.
+  Variable trailer : nat -> str.
+  Variable resolve : url -> str -> option url.
+  Variable c : cfg.
+
+  Hypothesis Hnodup : NoDup (map fst L).
+  Hypothesis Hnonempty : forall it, In it L -> fst it <> [].
+  (* any Link form that net/url resolves to the intended target (cursor x, the
+     registry's extra parameters, the other parameters of the request) *)
+  Hypothesis Hrender_gt : forall i base x, In x (map fst L) ->
+    contains c_gt (render i base (link_target (ds i) base x)) = false.
+  Hypothesis Hresolve : forall i base x, In x (map fst L) ->
+    resolve base (render i base (link_target (ds i) base x)) = Some (link_target (ds i) base x).
+  (* every document fits into MaxMetadataBytes *)
+  Hypothesis Hfits : forall i, (Z.of_N (d_doc_len (ds i)) <= eff_limit (c_limit c))%Z.
+  (* the link does not change the artifactType the request asked for *)
+  Hypothesis Hextra : c_kind c = KReferrers -> forall i, qget k_at (d_extra (ds i)) = None.
+
+  Definition view (page : list item) : list item :=
+    match c_kind c with KReferrers => filter_referrers page (c_at c) | _ => page end.
+
+  Definition serve := reg_serve (c_kind c) L cap ds render trailer.
+  Definition rest_of (rq : url) := after (qget_s k_last (u_query rq)) L.
+  Definition m_of (i : nat) (rq : url) := page_len cap rq (ds i).
+  Definition link_query (i : nat) (rq : url) : query :=
+    (k_last, VS (last_name (firstn (m_of i rq) (rest_of rq)))) :: d_extra (ds i) ++ qdel k_last (u_query rq).
+
+  Lemma view_app a b0 : view (a ++ b0) = view a ++ view b0.
+  Proof. unfold view. destruct (c_kind c); try reflexivity. apply filter_referrers_app. Qed.
+
+  Lemma m_of_pos i rq : (1 <= m_of i rq)%nat.
+  Proof. unfold m_of, page_len. lia. Qed.
+
+  Lemma serve_link i rq :
+    rs_link (serve i rq) =
+    if (m_of i rq <? length (rest_of rq))%nat
+    then c_lt :: render i rq (mkUrl (u_path rq) (link_query i rq)) ++ c_gt :: trailer i
+    else [].
+  Proof. reflexivity. Qed.
+
+  Lemma handle_serve i rq :
+    (c_kind c = KReferrers -> qget_s k_at (u_query rq) = c_at c) ->
+    handle c (serve i rq) = inr (view (firstn (m_of i rq) (rest_of rq))).
+  Proof.
+    intro Hat. unfold handle, serve, reg_serve, reg_page, body_fits. cbn [rs_status rs_ctype_ok rs_json_ok rs_doc_len rs_items rs_fhdr rs_fann].
+    fold (rest_of rq). fold (m_of i rq).
+    change (200 =? 200) with true. cbn [negb].
+    assert (F : (Z.of_N (d_doc_len (ds i)) <=? eff_limit (c_limit c))%Z = true) by (apply Z.leb_le; apply Hfits).
+    rewrite F. cbn [andb negb].
+    unfold view, reg_filters.
+    destruct (c_kind c) eqn:K; cbn [sends_last negb andb]; try reflexivity.
+    rewrite (Hat eq_refl).
+    destruct (is_empty (c_at c)) eqn:E; cbn [negb andb].
+    - unfold filter_referrers. now rewrite E.
+    - destruct (is_filter_applied (d_fhdr (ds i)) filterTypeArtifactType
+                || is_filter_applied (d_fann (ds i)) filterTypeArtifactType) eqn:A.
+      + assert (X : d_filter (ds i) || is_filter_applied (d_fhdr (ds i)) filterTypeArtifactType
+                    || is_filter_applied (d_fann (ds i)) filterTypeArtifactType = true).
+        { rewrite <- orb_assoc. rewrite A. apply orb_true_r. }
+        now rewrite X.
+      + rewrite <- orb_assoc. rewrite A. rewrite orb_false_r.
+        destruct (d_filter (ds i)); [now rewrite filter_referrers_idem|reflexivity].
+  Qed.
+
+  Lemma concat_delivered p :
+    concat (if delivered c (view p) then [view p] else []) = view p.
+  Proof.
+    unfold delivered. destruct (c_kind c); simpl; try apply app_nil_r.
+    destruct (view p); simpl; [reflexivity|now rewrite app_nil_r].
+  Qed.
+
+  Lemma loop_listing :
+    forall fuel i k u last rest pre,
+      rest_of (mk_request c u last) = rest ->
+      L = pre ++ rest ->
+      (c_kind c = KReferrers -> qget_s k_at (u_query (mk_request c u last)) = c_at c) ->
+      (length rest < fuel)%nat ->
+      let t := loop serve resolve (fun _ => false) c fuel i k u last in
+      t_out t = Done /\ concat (t_pages t) = view rest /\ (length (t_reqs t) <= S (length rest))%nat.
+  Proof.
+    induction fuel as [|fuel IH]; intros i k u last rest pre Hrest HL Hat Hfuel; [lia|].
+    cbn [loop]. cbv zeta.
+    set (rq := mk_request c u last) in *.
+    rewrite (handle_serve i rq Hat). rewrite andb_false_r.
+    rewrite serve_link. rewrite Hrest.
+    set (m := m_of i rq).
+    assert (Hm : (1 <= m)%nat) by apply m_of_pos.
+    destruct (m <? length rest)%nat eqn:Emore.
+    - (* a further page exists *)
+      apply Nat.ltb_lt in Emore.
+      assert (Hin : In (last_name (firstn m rest)) (map fst L)).
+      { rewrite HL, map_app. apply in_or_app. right. apply last_name_in; lia. }
+      assert (Etgt : mkUrl (u_path rq) (link_query i rq) = link_target (ds i) rq (last_name (firstn m rest))).
+      { unfold link_query, link_target. fold m. now rewrite Hrest. }
+      rewrite Etgt.
+      rewrite parse_link_wellformed by (now apply Hrender_gt).
+      rewrite Hresolve by exact Hin.
+      set (tgt := link_target (ds i) rq (last_name (firstn m rest))).
+      assert (Hlast : qget k_last (u_query (mk_request c tgt [])) = Some (VS (last_name (firstn m rest)))).
+      { rewrite mk_request_last. cbn [is_empty negb]. rewrite andb_false_r.
+        unfold tgt, link_target. cbn [u_query qget]. now rewrite str_eqb_refl. }
+      assert (Hrest' : rest_of (mk_request c tgt []) = skipn m rest).
+      { unfold rest_of, qget_s. rewrite Hlast. eapply after_page; eauto. }
+      assert (HL' : L = (pre ++ firstn m rest) ++ skipn m rest).
+      { rewrite <- app_assoc. now rewrite firstn_skipn. }
+      assert (Hat' : c_kind c = KReferrers -> qget_s k_at (u_query (mk_request c tgt [])) = c_at c).
+      { intro K. rewrite <- (Hat K). unfold qget_s. rewrite mk_request_at.
+        unfold tgt, link_target. cbn [u_query qget].
+        rewrite (str_eqb_neq k_last k_at) by exact k_last_neq_at.
+        rewrite qget_app, (Hextra K). rewrite qget_qdel_other; [|intro E; symmetry in E; now apply k_last_neq_at in E].
+        reflexivity. }
+      assert (Hlen : (length (skipn m rest) < fuel)%nat) by (rewrite skipn_length; lia).
+      set (pg := if delivered c (view (firstn m rest)) then [view (firstn m rest)] else []).
+      set (k' := if delivered c (view (firstn m rest)) then S k else k).
+      destruct (IH (S i) k' tgt [] (skipn m rest) (pre ++ firstn m rest) Hrest' HL' Hat' Hlen) as (O & P & R).
+      unfold prepend. cbn [t_out t_pages t_reqs]. split; [exact O|]. split.
+      + rewrite concat_app. rewrite P. unfold pg. rewrite concat_delivered.
+        rewrite <- view_app. now rewrite firstn_skipn.
+      + simpl length. rewrite skipn_length in R. lia.
+    - (* the last page *)
+      apply Nat.ltb_ge in Emore.
+      rewrite parse_link_absent. cbn [t_out t_pages t_reqs]. split; [reflexivity|]. split.
+      + rewrite concat_delivered. now rewrite firstn_all2.
+      + simpl. lia.
+  Qed.
+End Listing.
+
+Lemma NoDup_suffix {A} (pre l : list A) : NoDup (pre ++ l) -> NoDup l.
+Proof. induction pre as [|a pre IH]; simpl; intro H; [exact H|]. inversion H; auto. Qed.
+
+(* Tags / Repositories: every item after [last], once, in the registry's order *)
+Theorem listing_exactly_once :
+  forall (L : list item) (cap : nat) (ds : nat -> decision)
+         (render : nat -> url -> url -> str) (trailer : nat -> str)
+         (resolve : url -> str -> option url) (c : cfg) (path last0 : str) (fuel : nat),
+    c_kind c <> KReferrers ->
+    NoDup (map fst L) -> (forall it, In it L -> fst it <> []) ->
+    (forall i base x, In x (map fst L) ->
+       contains c_gt (render i base (link_target (ds i) base x)) = false) ->
+    (forall i base x, In x (map fst L) ->
+       resolve base (render i base (link_target (ds i) base x)) = Some (link_target (ds i) base x)) ->
+    (forall i, (Z.of_N (d_doc_len (ds i)) <= eff_limit (c_limit c))%Z) ->
+    (length (after last0 L) < fuel)%nat ->
+    let t := loop (reg_serve (c_kind c) L cap ds render trailer) resolve (fun _ => false) c
+                  fuel 0 0 (mkUrl path []) last0 in
+    t_out t = Done /\
+    concat (t_pages t) = after last0 L /\
+    NoDup (map fst (concat (t_pages t))) /\
+    (length (t_reqs t) <= S (length (after last0 L)))%nat.
+Proof.
+  intros L cap ds render trailer resolve c path last0 fuel K Hnd Hne Hgt Hres Hfit Hfuel.
+  destruct (after_suffix last0 L) as [pre Hpre].
+  assert (Hrest : rest_of L (mk_request c (mkUrl path []) last0) = after last0 L).
+  { unfold rest_of, qget_s. rewrite mk_request_last. cbn [u_query qget].
+    assert (S : sends_last (c_kind c) = true) by (destruct (c_kind c); try reflexivity; contradiction).
+    rewrite S. destruct last0; reflexivity. }
+  destruct (loop_listing L cap ds render trailer resolve c Hnd Hne Hgt Hres Hfit
+              ltac:(intro; contradiction) fuel 0%nat 0%nat (mkUrl path []) last0 (after last0 L) pre
+              Hrest Hpre ltac:(intro; contradiction) Hfuel) as (O & P & R).
+  assert (V : view c (after last0 L) = after last0 L).
+  { unfold view. destruct (c_kind c); try reflexivity; contradiction. }
+  rewrite V in P. unfold serve in *. repeat split; auto.
+  rewrite P. rewrite Hpre in Hnd. rewrite map_app in Hnd. now apply NoDup_suffix in Hnd.
+Qed.
+
+Definition referrers_query (a : str) : query := if is_empty a then [] else [(k_at, VS a)].
+
+(* Referrers: exactly the referrers of the requested artifact type, once, in order,
+   whether the registry filters (announced by header, by annotation, or silently) or not *)
+Theorem referrers_exactly_once :
+  forall (L : list item) (cap : nat) (ds : nat -> decision)
+         (render : nat -> url -> url -> str) (trailer : nat -> str)
+         (resolve : url -> str -> option url) (c : cfg) (path : str) (fuel : nat),
+    c_kind c = KReferrers ->
+    NoDup (map fst L) -> (forall it, In it L -> fst it <> []) ->
+    (forall i base x, In x (map fst L) ->
+       contains c_gt (render i base (link_target (ds i) base x)) = false) ->
+    (forall i base x, In x (map fst L) ->
+       resolve base (render i base (link_target (ds i) base x)) = Some (link_target (ds i) base x)) ->
+    (forall i, (Z.of_N (d_doc_len (ds i)) <= eff_limit (c_limit c))%Z) ->
+    (forall i, qget k_at (d_extra (ds i)) = None) ->
+    (length L < fuel)%nat ->
+    let t := loop (reg_serve KReferrers L cap ds render trailer) resolve (fun _ => false) c
+                  fuel 0 0 (mkUrl path (referrers_query (c_at c))) [] in
+    t_out t = Done /\
+    concat (t_pages t) = filter_referrers L (c_at c) /\
+    (length (t_reqs t) <= S (length L))%nat.
+Proof.
+  intros L cap ds render trailer resolve c path fuel K Hnd Hne Hgt Hres Hfit Hex Hfuel.
+  assert (Hrest : rest_of L (mk_request c (mkUrl path (referrers_query (c_at c))) []) = L).
+  { unfold rest_of, qget_s. rewrite mk_request_last. rewrite K. cbn [sends_last andb u_query].
+    unfold referrers_query. destruct (is_empty (c_at c)); reflexivity. }
+  assert (Hat : c_kind c = KReferrers ->
+                qget_s k_at (u_query (mk_request c (mkUrl path (referrers_query (c_at c))) [])) = c_at c).
+  { intros _. unfold qget_s. rewrite mk_request_at. cbn [u_query]. unfold referrers_query.
+    destruct (c_at c) as [|x a]; [reflexivity|]. cbn [is_empty qget]. now rewrite str_eqb_refl. }
+  pose proof (loop_listing L cap ds render trailer resolve c Hnd Hne Hgt Hres Hfit
+              (fun _ => Hex) fuel 0%nat 0%nat (mkUrl path (referrers_query (c_at c))) [] L []
+              Hrest eq_refl Hat Hfuel) as H.
+  unfold serve in H. rewrite K in H. unfold view in H. rewrite K in H. exact H.
 Qed.
